@@ -118,6 +118,14 @@ def run(ctx):
             L = np.full((T, C), -200.0)
             for t, s in enumerate(path):
                 L[t, s] = 50.0
+        if mode == 'transformer' and rng.random() < 0.6:
+            # sparsified as the engine stores them (weak symbols pruned to 0), while the transcription was corrected afterwards
+            # (decoder / by hand): a label may be a symbol that is pruned at its step
+            probs0 = np.exp(log_softmax(L))
+            L = L.copy()
+            L[probs0 < rng.choice([1e-2, 0.2])] = 0
+            labels = [rng.randrange(C - 1) for _ in range(nl)]
+            ctx.count('transformer:sparsified')
         if mode == 'sparse':
             probs0 = np.exp(log_softmax(L))
             L = L.copy()
